@@ -43,6 +43,7 @@ func (s *Server) BootstrapContext(ctx context.Context) (_ TraversalStats, err er
 	})
 	nodes, err := s.TraversalStartingNodes()
 	if err != nil {
+		t.Stop()
 		return
 	}
 	t.AddNodes(nodes)
